@@ -38,6 +38,10 @@ CLAIMS["C03"] = ("must-pass comparison guards with comparator strictness (finite
     "Static decision that the three vault limits are enforced with the right strictness on every path that needs them: the ratio check succeeds only through ratio >= minimum; every mint / collateral release from a vault that stays open needs a successful ratio check against the product's MinCr computed from the current vault record; every mint passes total <= DebtCeiling where the total includes the mint and is kept exact by the handlers; creation and repay pass principal >= DebtFloor; price errors propagate. Values are touched only through comparisons so the implied orderings are exact. NOT covered: whether truncation lets a boundary input slip; the numeric inequality over prices and decimals.",
     "DESIGN.md §3 C03")
 
+CLAIMS["C09"] = ("site guards with comparator strictness and operand provenance; loop-exit, post-loop must-store, store-key agreement and window bookkeeping rules on the sweeps",
+    "Static decision of the structural part of liquidation safety and liveness: all seizure sites (12 call sites in sweeps and liquidate messages of both generations) are reachable only through ratio < MinCr (vaults) or ratio > threshold (borrows), the ratio being computed from the position's own recorded amounts and the threshold factor belonging to the transit asset the branch tests for; seizure cannot succeed without a successful auction start and hands over exactly the recorded collateral; each sweep leaves its item loop only through the header, always stores the advanced offset afterwards, under the key it was read from, wraps on an empty window; per-item units isolate their writes. NOT covered: the numeric ratio, the two-sweeps bound, list shifts caused by concurrent creation/closing.",
+    "DESIGN.md §3 C09")
+
 NOT_APPLICABLE = {
     "C18": "purely numeric relations between evaluations of accrual/rate functions (non-negativity, monotonicity, sub-additivity, continuity; one path through float64 math.Pow); no guard, pairing, provenance or ordering is a necessary condition of them, so no sound static argument in reach applies (DESIGN.md §3 C18, §4).",
 }
